@@ -264,6 +264,10 @@ func runC07(c *Ctx) {
 		}
 	}
 
+	c.Rule("C07-D8", "packets are handed to the current transport under the lock: the transport's Send is called on the transport field itself while transportMu is read-held (both sockets, including the client's batcher) — "+
+		"a Send that picked the transport earlier and enqueues after upgradeTo has drained the old queue is lost", 2)
+	sendUnderTransportLock(c, "C07-D8")
+
 	c.Rule("C07-D6", "the upgrade timeout is disarmed before the swap: in both probe handlers `once.Do(close(done))` precedes upgradeTo/finishUpgradeTo on every path (else the timeout can fire after a successful probe, close the candidate, and the pending swap moves the socket onto a dead transport); and the new transport has the same read limit as a directly connected one (shared with C13-D2)", 4)
 	for _, a := range []struct{ short, fn, swap string }{
 		{"eio", "Server.maybeUpgrade", `\(\*eio\.serverSocket\)\.upgradeTo`},
@@ -457,4 +461,99 @@ func swapRegion(c *Ctx, rule string) {
 		c.Ob(rule, name+"/discards-old", dis[0].Pos(), isLoad && Dominates(ld, sw) && Term(dis[0].Common().Value) == "s.transport" && li.HoldsW(dis[0].Instr, "s.transportMu"), "Discard must be called on the old transport (captured before the swap) inside the region")
 	}
 	_ = types.Typ
+}
+
+// sendUnderTransportLock (C07-D8, shared with C01 and C02): both Engine.IO
+// sockets hand packets to the CURRENT transport while transportMu is read-held:
+// the transport's Send (server) / every transport call of the batcher (client)
+// is made inside the read-locked region of Send — not on a transport value read
+// under the lock and used after it was released: upgradeTo swaps and drains the
+// old queue under the write lock, so a send that is in flight on the old
+// transport after the drain lands in a queue nobody reads any more.
+func sendUnderTransportLock(c *Ctx, rule string) {
+	p := c.P
+	for _, tn := range []string{"serverSocket", "clientSocket"} {
+		fn := p.Fn("eio", tn+".Send")
+		name := "eio." + tn + ".Send"
+		n := 0
+		for _, f := range append([]*ssa.Function{fn}, calleesWithin(p, fn, "eio", 2)...) {
+			li := LocksInherit(f)
+			for _, cs := range Calls(f) {
+				cc := cs.Common()
+				if !cc.IsInvoke() || !(strings.HasSuffix(cc.Value.Type().String(), "ServerTransport") || strings.HasSuffix(cc.Value.Type().String(), "ClientTransport")) {
+					continue
+				}
+				if cc.Method.Name() != "Send" {
+					continue
+				}
+				n++
+				held := false
+				for l := range li.Held(cs.Instr) {
+					if strings.HasSuffix(l, ".transportMu") {
+						held = true
+					}
+				}
+				recvIsField := strings.HasSuffix(stripAmp(Term(cc.Value)), ".transport")
+				c.Ob(rule, name+"/transport.Send-under-transportMu@"+FuncName(f), cs.Pos(), held && recvIsField, "the transport's Send is called on "+Term(cc.Value)+" with transportMu "+map[bool]string{true: "held", false: "NOT held"}[held]+
+					": it must be the transport field itself, read and used inside one read-locked region — a transport obtained earlier (Transport()) can be the discarded one by now, and its queue is never read again")
+			}
+		}
+		if n == 0 {
+			c.Ob(rule, name+"/transport.Send-under-transportMu", fn.Pos(), false, "Send never reaches the transport's Send")
+		}
+	}
+}
+
+// calleesWithin: unexported functions of package short that fn calls statically (synchronously), to the given depth.
+func calleesWithin(p *Program, fn *ssa.Function, short string, depth int) []*ssa.Function {
+	var out []*ssa.Function
+	seen := map[*ssa.Function]bool{fn: true}
+	var walk func(f *ssa.Function, d int)
+	walk = func(f *ssa.Function, d int) {
+		if d == 0 {
+			return
+		}
+		for _, cs := range Calls(f) {
+			if _, isCall := cs.Instr.(*ssa.Call); !isCall {
+				continue
+			}
+			sc := cs.Common().StaticCallee()
+			if sc == nil || seen[sc] || sc.Pkg == nil || len(sc.Blocks) == 0 {
+				continue
+			}
+			if s, _ := shortOf(sc.Pkg.Pkg.Path()); s != short {
+				continue
+			}
+			seen[sc] = true
+			out = append(out, sc)
+			walk(sc, d-1)
+		}
+	}
+	walk(fn, depth)
+	return out
+}
+
+// queueGetResets (C02-D7, C19-D8): get() hands the queued slice out and forgets
+// it — the field is reset to nil in the same critical section.  Keeping the
+// backing array (`q.packets = q.packets[:0]`) makes the next add() overwrite
+// frames the consumer has not encoded yet.
+func queueGetResets(c *Ctx, rule string) {
+	p := c.P
+	for _, a := range []struct{ short, typ, fn string }{{"sio", "packetQueue", "packetQueue.get"}, {"polling", "pollQueue", "pollQueue.get"}} {
+		fn := p.Fn(a.short, a.fn)
+		fv := p.Field(a.short, a.typ, "packets")
+		name := a.short + "." + a.fn
+		sts := findInstrs(fn, fieldStorePred(fv))
+		okR := len(sts) >= 1
+		detail := "get() does not reset the queue"
+		for _, st := range sts {
+			k, isK := st.(*ssa.Store).Val.(*ssa.Const)
+			if !isK || k.Value != nil {
+				okR = false
+				detail = "get() leaves " + Term(st.(*ssa.Store).Val) + " in the queue: the storage handed to the consumer stays reachable from the queue, and the next add() writes into it while the consumer is still sending it"
+			}
+		}
+		c.Ob(rule, name+"/resets-to-nil", fn.Pos(), okR, detail)
+		// and add() never writes into storage it does not own exclusively: it stores its parameter or an append to the field
+	}
 }
